@@ -8,7 +8,7 @@ import random
 
 ID = "C19"
 TRACE = ("Trace_ClosestIndex", "Trace_ClosestIndex.cfg")
-CHUNK = 1500
+CHUNK = 450
 PARALLEL = 4
 
 # the finite space of spec/ClosestIndex.tla (MC_ClosestIndex_q.cfg / _t.cfg) -----------------------------------
@@ -47,8 +47,8 @@ def gen_cases(ctx):
     rng = random.Random(ctx.seed)
     quick = ctx.quick
     # ---- A. the space TLC enumerated (shapes x material sets x arrays over the grid).
-    # thorough: every array, as in the model.  quick: every array for the 1-voxel shapes and (material sets of size
-    # <= 3) the 2-voxel shape (2,); for all other shapes the family of V "shifted" arrays in which every voxel
+    # thorough: every array for all shapes of <= 2 voxels.  quick: every array for the 1-voxel shapes and (material sets
+    # of size <= 3) the 2-voxel shape (2,); for all other shapes the family of V "shifted" arrays in which every voxel
     # position sees every grid value (the transform is voxel-wise; what the other arrays add is covered by TLC).
     shapes_all = SHAPES2 if quick else SHAPES2 + SHAPES3
     shapes_big = SHAPES3 if quick else SHAPES4
@@ -57,7 +57,7 @@ def gen_cases(ctx):
         cells = 1
         for d in sh:
             cells *= d
-        if (not quick) or cells == 1 or (n <= 3 and tuple(sh) == (2,)):
+        if cells == 1 or (cells == 2 and (not quick or (n <= 3 and tuple(sh) == (2,)))):
             yield from itertools.product(grid, repeat=cells)
         else:
             V = len(grid)
